@@ -18,7 +18,8 @@ Arguments Ok {A} a. Arguments Err {A} e. Arguments Panic {A}.
 Section Model.
   Variable H : Type.
   Variable wrap : mwid -> H -> H.      (* mws[i].m(h) *)
-  Variable special : kind -> H.        (* noRouteBase, noMethod, defaultRedirectTrailingSlashHandler, autoOptions before wrapping *)
+  Variable special : kind -> H.        (* DefaultNotFoundHandler, DefaultMethodNotAllowedHandler, defaultRedirectTrailingSlashHandler, DefaultOptionsHandler *)
+  Variable custom : kind -> H.         (* handlers given with WithNoRouteHandler / WithNoMethodHandler / WithOptionsHandler *)
   Variable route_h : nat -> H.         (* user handler number hid *)
   Variable grow : nat -> nat -> nat.   (* runtime growth policy of append *)
 
@@ -48,7 +49,7 @@ Section Model.
         let lit := mkSlice (List.length h) 0 2 2 in
         let '(h2, s2) := append_list h1 lit (contents h1 s) in
         (h2, s2, true)
-    | GOther => (h, s, true)
+    | GOther | GFlag _ _ | GCustomH _ => (h, s, true)       (* no effect on router.mws *)
     end.
 
   Fixpoint apply_globs (h : heap) (s : slice) (opts : list gopt) : heap * slice * bool :=
@@ -85,8 +86,8 @@ Section Model.
   Definition apply_route_middleware (h : heap) (s : slice) (base : H) : option (H * H) :=
     apply_route_from h s (s_len s) base base.
 
-  Record router := mkRouter { r_mws : slice; r_noRoute : H; r_noMethod : H; r_tsr : H; r_auto : H }.
-  Record route := mkRoute { rt_mws : slice; rt_hbase : H; rt_hself : H; rt_hall : H }.
+  Record router := mkRouter { r_mws : slice; r_noRoute : H; r_noMethod : H; r_tsr : H; r_auto : H; r_cfg : cfg }.
+  Record route := mkRoute { rt_mws : slice; rt_hbase : H; rt_hself : H; rt_hall : H; rt_flags : bool * bool (* redirect, ignore *) }.
 
   (* the heap every router starts from: array 0 is an empty array standing for the nil slice's (absent) backing store *)
   Definition heap0 : heap := [[]].
@@ -95,22 +96,24 @@ Section Model.
   Definition new (opts : list gopt) : heap * outcome router :=
     let '(h, s, ok) := apply_globs heap0 nil_slice opts in
     if negb ok then (h, Err ErrInvalidConfig) else
-    match apply_middleware h s NoRouteHandler (special KNoRoute),
-          apply_middleware h s NoMethodHandler (special KNoMethod),
+    let base k := if custom_of opts k then custom k else special k in
+    (* the four chains are composed whatever the feature flags are: a route may enable the redirect on its own *)
+    match apply_middleware h s NoRouteHandler (base KNoRoute),
+          apply_middleware h s NoMethodHandler (base KNoMethod),
           apply_middleware h s RedirectHandler (special KRedirect),
-          apply_middleware h s OptionsHandler (special KOptions) with
-    | Some nr, Some nm, Some ts, Some au => (h, Ok (mkRouter s nr nm ts au))
+          apply_middleware h s OptionsHandler (base KOptions) with
+    | Some nr, Some nm, Some ts, Some au => (h, Ok (mkRouter s nr nm ts au (cfg_of opts)))
     | _, _, _, _ => (h, Panic)
     end.
 
   (* Router.NewRoute restricted to middleware: clip, apply the route options, compose *)
-  Definition new_route (h : heap) (r : router) (hid : nat) (ms : list (option mwid)) : heap * outcome route :=
+  Definition new_route (h : heap) (r : router) (hid : nat) (ms : list (option mwid)) (ts : list tsopt) : heap * outcome route :=
     let s0 := clip (r_mws r) in                                  (* fox.mws[:len(fox.mws):len(fox.mws)] *)
     let '(h1, s1, ok) := append_mws h s0 ms RouteHandler false in
     if negb ok then (h1, Err ErrInvalidConfig) else
     match apply_route_middleware h1 s1 (route_h hid) with
     | None => (h1, Panic)
-    | Some (rte, all) => (h1, Ok (mkRoute s1 (route_h hid) rte all))
+    | Some (rte, all) => (h1, Ok (mkRoute s1 (route_h hid) rte all (route_flags (r_cfg r) ts)))
     end.
 
   (* the registered routes, keyed like the tree by (method, pattern) = key *)
@@ -134,20 +137,21 @@ Section Model.
     (Nat.eqb (s_arr (rt_mws rt)) (s_arr (r_mws r)) && Nat.eqb (s_off (rt_mws rt)) (s_off (r_mws r)),
      s_len (rt_mws rt), s_cap (rt_mws rt)).
 
-  (* ServeHTTP: the composed handler a request of kind k reaches and the scope stored in the context *)
-  Definition serve (st : state) (k : kind) (key : nat) : H * N :=
-    match k, lookup key (st_tab st) with
+  (* ServeHTTP: the composed handler a request reaches and the scope stored in the context *)
+  Definition serve (st : state) (s : shape) (key : nat) : H * N :=
+    let rt := lookup key (st_tab st) in
+    match dispatch (r_cfg (st_r st)) (option_map rt_flags rt) s, rt with
     | KRoute, Some rt => (rt_hall rt, RouteHandler)                 (* c.reset sets RouteHandler; n.route.hall(c) *)
-    | KNoRoute, _ | _, None => (r_noRoute (st_r st), NoRouteHandler)
-    | KNoMethod, Some _ => (r_noMethod (st_r st), NoMethodHandler)
-    | KRedirect, Some _ => (r_tsr (st_r st), RedirectHandler)
-    | KOptions, Some _ => (r_auto (st_r st), OptionsHandler)
+    | KNoMethod, _ => (r_noMethod (st_r st), NoMethodHandler)
+    | KRedirect, _ => (r_tsr (st_r st), RedirectHandler)
+    | KOptions, _ => (r_auto (st_r st), OptionsHandler)
+    | _, _ => (r_noRoute (st_r st), NoRouteHandler)
     end.
 
   Definition run_op (st : state) (o : op) : state * mobs :=
     match o with
-    | OHandle key hid ms =>
-        match new_route (st_h st) (st_r st) hid ms with
+    | OHandle key hid ms ts =>
+        match new_route (st_h st) (st_r st) hid ms ts with
         | (h1, Err e) => (mkState h1 (st_r st) (st_tab st), MErr (Some e) false 0 0)
         | (h1, Panic) => (mkState h1 (st_r st) (st_tab st), MPanic)
         | (h1, Ok rt) =>
@@ -157,8 +161,8 @@ Section Model.
                       (mkState h1 (st_r st) ((key, rt) :: st_tab st), MErr None sh l c)
             end
         end
-    | OUpdate key hid ms =>
-        match new_route (st_h st) (st_r st) hid ms with
+    | OUpdate key hid ms ts =>
+        match new_route (st_h st) (st_r st) hid ms ts with
         | (h1, Err e) => (mkState h1 (st_r st) (st_tab st), MErr (Some e) false 0 0)
         | (h1, Panic) => (mkState h1 (st_r st) (st_tab st), MPanic)
         | (h1, Ok rt) =>
@@ -168,7 +172,7 @@ Section Model.
                         (mkState h1 (st_r st) (replace key rt (st_tab st)), MErr None sh l c)
             end
         end
-    | OServe k key => let '(hd, sc) := serve st k key in (st, MH hd (Some sc))
+    | OServe s key => let '(hd, sc) := serve st s key in (st, MH hd (Some sc))
     | ORouteHandle key =>
         (st, match lookup key (st_tab st) with Some rt => MH (rt_hbase rt) None | None => MNoRoute end)
     | ORouteHandleMw key =>
@@ -207,7 +211,7 @@ Definition pobs (m : mobs trace) : obs :=
 Definition has_panic (m : mobs trace) : bool := match m with MPanic _ => true | _ => false end.
 
 Definition run_traces (grow : nat -> nat -> nat) (gopts : list gopt) (ops : list op) : mresult trace :=
-  run_model trace twrap base_trace troute grow gopts ops.
+  run_model trace twrap (fun _ => []) base_trace troute grow gopts ops.
 
 Definition project (r : mresult trace) : result :=
   match r with
